@@ -664,6 +664,10 @@ def desugar_effect_closures(fns_by_path, max_rewrites=40):
                 continue
             name = t['callee'].get('resolved') or t['callee'].get('path') or ''
             spec = next((v for k, v in _COMB.items() if name.endswith(k)), None)
+            is_then = name.endswith('bool>::then') or name == 'core::bool::<impl bool>::then'
+            if is_then:
+                # `cond.then(|| e)`: Some(e) when the condition holds, None otherwise - the closure runs under the condition
+                spec = ('core::option::Option', 'Some', 'then')
             if spec is None:
                 continue
             enum, on_variant, wrap = spec
@@ -689,7 +693,7 @@ def desugar_effect_closures(fns_by_path, max_rewrites=40):
             if cp is None or cp not in fns_by_path or cp in bl.get('inl', ()):
                 continue
             cj = originals.setdefault(cp, copy.deepcopy(fns_by_path[cp]))
-            if (wrap != 'filter' and not _closure_has_effects(cj)) or len(cj['blocks']) > 200:
+            if (wrap not in ('filter', 'then') and not _closure_has_effects(cj)) or len(cj['blocks']) > 200:
                 continue
             o = t['args'][0]
             if o.get('k') not in ('copy', 'move') or o['place']['proj']:
@@ -736,7 +740,7 @@ def desugar_effect_closures(fns_by_path, max_rewrites=40):
                 pass_rv = agg(other, [payload(other)])
             elif wrap == 'Err' and enum.endswith('Option'):      # ok_or_else: Some(x) -> Ok(x)
                 pass_rv = {'k': 'aggregate', 'adt': 'core::result::Result', 'variant': 'Ok', 'fields': [], 'ops': [payload('Some')]}
-            elif wrap in ('Some', 'filter'):
+            elif wrap in ('Some', 'filter', 'then'):
                 pass_rv = agg('None', [])
             else:                          # map_err on Ok / map on Err
                 pass_rv = agg(other, [payload(other)])
@@ -748,7 +752,9 @@ def desugar_effect_closures(fns_by_path, max_rewrites=40):
                 call_stmts.append({'k': 'assign', 'place': pl(loff + 1, ty=c1ty), 'rv': {'k': 'ref', 'mut': ' mut ' in c1ty[:24], 'place': pl(cl)}, 'span': span, 'inl_arg': cp})
             else:
                 call_stmts.append({'k': 'assign', 'place': pl(loff + 1, ty=c1ty), 'rv': {'k': 'use', 'op': {'k': 'move', 'place': pl(cl)}}, 'span': span, 'inl_arg': cp})
-            if cj['arg_count'] >= 2 and wrap == 'filter':
+            if wrap == 'then':
+                pass
+            elif cj['arg_count'] >= 2 and wrap == 'filter':
                 # the predicate looks at the payload through a shared reference
                 call_stmts.append({'k': 'assign', 'place': pl(loff + 2, ty=cj['locals'][2]['ty']), 'rv': {'k': 'ref', 'mut': False, 'place': payload(on_variant)['place']}, 'span': span, 'inl_arg': cp})
             elif cj['arg_count'] >= 2:
@@ -756,7 +762,9 @@ def desugar_effect_closures(fns_by_path, max_rewrites=40):
             j['blocks'].append({'i': b_call, 'stmts': call_stmts, 'term': {'k': 'goto', 'target': boff, 'inl_call': cp, 'span': span}, 'inl': stack, 'cleanup': False})
             # what the closure returned becomes the result
             r_op = {'k': 'move', 'place': pl(loff, ty=ret_ty)}
-            if wrap in ('value', 'same'):
+            if wrap == 'then':
+                fin_rv = agg('Some', [r_op])
+            elif wrap in ('value', 'same'):
                 fin_rv = {'k': 'use', 'op': r_op}
             elif wrap == 'Err' and enum.endswith('Option'):
                 fin_rv = {'k': 'aggregate', 'adt': 'core::result::Result', 'variant': 'Err', 'fields': [], 'ops': [r_op]}
@@ -786,9 +794,12 @@ def desugar_effect_closures(fns_by_path, max_rewrites=40):
                     nb['term'] = {'k': 'goto', 'target': t['unwind']} if isinstance(t.get('unwind'), int) else {'k': 'unreachable'}
                 j['blocks'].append(nb)
             # the call becomes the test
-            bl['stmts'].append({'k': 'assign', 'place': pl(disc), 'rv': {'k': 'discr', 'place': pl(ol), 'enum': enum}, 'span': span})
-            tg = [[vidx, b_call], [1 - vidx, b_pass]]
-            bl['term'] = {'k': 'switch', 'op': {'k': 'move', 'place': pl(disc)}, 'ty': 'isize', 'targets': sorted(tg), 'otherwise': b_pass, 'span': span, 'desugared': name}
+            if wrap == 'then':
+                bl['term'] = {'k': 'switch', 'op': {'k': 'move', 'place': pl(ol)}, 'ty': 'bool', 'targets': [[0, b_pass]], 'otherwise': b_call, 'span': span, 'desugared': name}
+            else:
+                bl['stmts'].append({'k': 'assign', 'place': pl(disc), 'rv': {'k': 'discr', 'place': pl(ol), 'enum': enum}, 'span': span})
+                tg = [[vidx, b_call], [1 - vidx, b_pass]]
+                bl['term'] = {'k': 'switch', 'op': {'k': 'move', 'place': pl(disc)}, 'ty': 'isize', 'targets': sorted(tg), 'otherwise': b_pass, 'span': span, 'desugared': name}
             n += 1
             done.setdefault(path, []).append(cp)
     return done
